@@ -92,3 +92,41 @@ Section Load.
   (* compile_templates: one module per listed template *)
   Definition compile_archive (names : list str) : list str := map (template_key sha1_hex) names.
 End Load.
+
+(* ModuleLoader.load as a state machine, for one loader object used by any number of environments.
+   The loader's package module has attributes (name -> module namespace); load(environment, name):
+       key    = get_template_key(name);  module = f"{package_name}.{key}"
+       mod    = getattr(self.module, module, None)        -- looked up under the DOTTED name
+       if mod is None: mod = __import__(module, ...)       -- execs the module text anew: a fresh
+                                                              namespace; the import machinery sets the
+                                                              attribute `key` (undotted) on the package
+       Template._from_namespace(environment, mod.__dict__, globals)   -- namespace["environment"] = environment
+   Namespaces are numbered; a Template is the number of the namespace its functions live in. *)
+Section Shared.
+  Variable E : Type.
+  Variable sha1_hex : str -> str.
+  Variable package_name : str.
+  Record lstate := { l_attrs : list (str * nat); l_nss : list (option E) }.
+  Definition l_empty : lstate := {| l_attrs := []; l_nss := [] |}.
+  Fixpoint find_attr (a : str) (l : list (str * nat)) : option nat :=
+    match l with [] => None | (b, i) :: r => if str_eqb b a then Some i else find_attr a r end.
+  Fixpoint set_nth {A} (i : nat) (x : A) (l : list A) : list A :=
+    match l, i with [], _ => [] | _ :: r, O => x :: r | y :: r, S i' => y :: set_nth i' x r end.
+  Definition dotted (key : str) : str := package_name ++ 46%N :: key.
+  Definition load (st : lstate) (name : str) (e : E) : lstate * nat :=
+    let key := template_key sha1_hex name in
+    match find_attr (dotted key) (l_attrs st) with
+    | Some i => ({| l_attrs := l_attrs st; l_nss := set_nth i (Some e) (l_nss st) |}, i)
+    | None => let i := length (l_nss st) in
+              ({| l_attrs := (key, i) :: l_attrs st; l_nss := l_nss st ++ [Some e] |}, i)
+    end.
+  (* a history of loads (template name, environment) from a fresh loader: final state and the
+     namespace number each load returned *)
+  Fixpoint loads (st : lstate) (h : list (str * E)) : lstate * list nat :=
+    match h with
+    | [] => (st, [])
+    | (n, e) :: r => let (st1, i) := load st n e in let (st2, is) := loads st1 r in (st2, i :: is)
+    end.
+End Shared.
+Arguments l_attrs {E} _. Arguments l_nss {E} _. Arguments Build_lstate {E} _ _.
+Arguments load {E} _ _ _ _ _. Arguments loads {E} _ _ _ _. Arguments l_empty {E}.
